@@ -103,3 +103,99 @@ pub fn run_val(tier: &str, seed: u64, out: &mut Out) {
         out.raw(&job.to_string());
     }
 }
+
+// ---------------------------------------------------------------- C06: guard denotation validation
+
+fn frag_expr(rng: &mut Rng, depth: usize) -> String {
+    let fields = ["a", "b", "c", "d", "o", "l", "s"];
+    let keys = ["a", "b", "x", "o", "length", "k1", "list"];
+    if depth == 0 || rng.chance(1, 4) {
+        return match rng.below(8) {
+            0 => format!("{}", rng.below(3)),
+            1 => format!("'{}'", rng.pick(&keys)),
+            2 => (*rng.pick(&["true", "false", "null", "undefined"])).to_string(),
+            _ => rng.pick(&fields).to_string(),
+        };
+    }
+    match rng.below(10) {
+        0 | 1 => format!("{}.{}", frag_access(rng, depth - 1), rng.pick(&keys)),
+        2 | 3 => format!("{}[{}]", frag_access(rng, depth - 1), frag_expr(rng, depth - 1)),
+        4 => format!("({} ? {} : {})", frag_expr(rng, depth - 1), frag_expr(rng, depth - 1), frag_expr(rng, depth - 1)),
+        5 => format!("({} ? {} : {}).{}", frag_expr(rng, depth - 1), frag_access(rng, depth - 1), frag_access(rng, depth - 1), rng.pick(&keys)),
+        6 => format!("({} {} {})", frag_expr(rng, depth - 1), rng.pick(&["+", "-", "*", "<", "===", "&&", "||", "??"]), frag_expr(rng, depth - 1)),
+        7 => format!("{}({})", rng.pick(&["!", "-", "typeof "]), frag_expr(rng, depth - 1)),
+        8 => format!("({} ? {} : {})[{}]", frag_expr(rng, depth - 1), frag_access(rng, depth - 1), frag_access(rng, depth - 1), frag_expr(rng, depth - 1)),
+        _ => frag_access(rng, depth),
+    }
+}
+
+fn frag_access(rng: &mut Rng, depth: usize) -> String {
+    let fields = ["a", "b", "o", "l", "s"];
+    let keys = ["a", "b", "x", "o", "k1", "list"];
+    if depth == 0 || rng.chance(1, 3) {
+        return rng.pick(&fields).to_string();
+    }
+    match rng.below(3) {
+        0 => format!("{}.{}", frag_access(rng, depth - 1), rng.pick(&keys)),
+        1 => format!("{}[{}]", frag_access(rng, depth - 1), frag_expr(rng, depth - 1)),
+        _ => format!("({} ? {} : {})", frag_expr(rng, depth - 1), frag_access(rng, depth - 1), frag_access(rng, depth - 1)),
+    }
+}
+
+fn rand_upt(rng: &mut Rng, depth: usize) -> (String, serde_json::Value) {
+    // (sexp for the model, JSON for node: true | {..}); undefined children are left out
+    let keys = ["a", "b", "c", "d", "o", "l", "s", "x", "k1", "0", "1", "list", "length"];
+    let mut sx = String::from("(o");
+    let mut m = serde_json::Map::new();
+    let n = rng.below(4);
+    for _ in 0..n {
+        let k = *rng.pick(&keys);
+        if m.contains_key(k) {
+            continue;
+        }
+        if depth == 0 || rng.chance(1, 2) {
+            sx.push_str(&format!(" ({} t)", ast::q(k)));
+            m.insert(k.to_string(), serde_json::Value::Bool(true));
+        } else {
+            let (s2, j2) = rand_upt(rng, depth - 1);
+            sx.push_str(&format!(" ({} {})", ast::q(k), s2));
+            m.insert(k.to_string(), j2);
+        }
+    }
+    sx.push(')');
+    (sx, serde_json::Value::Object(m))
+}
+
+/// expression in the theorem's fragment x update-path tree x data: the model's denotation of the
+/// guard must agree with the guard TEXT evaluated by node
+pub fn run_guardden(tier: &str, seed: u64, out: &mut Out) {
+    let mut rng = Rng::new(seed ^ 0x9d3);
+    let n = if tier == "thorough" { 20000 } else { 2500 };
+    for i in 0..n {
+        let text = frag_expr(&mut rng, 1 + i % 3);
+        let src = format!("<v a=\"{{{{ {} }}}}\"/>", text);
+        let mut g = TmplGroup::new();
+        g.add_tmpl("p", &src);
+        let tree = g.get_tree("p").unwrap();
+        let sx = match tree.content.get(0) {
+            Some(Node::Element(el)) => match &el.kind {
+                ElementKind::Normal { attributes, .. } => match attributes.get(0).and_then(|a| a.value.as_ref()) {
+                    Some(Value::Dynamic { expression, .. }) => Some(ast::expr(expression)),
+                    _ => None,
+                },
+                _ => None,
+            },
+            _ => None,
+        };
+        let Some(sx) = sx else { continue };
+        let js = g.get_tmpl_gen_object("p").unwrap_or_default();
+        let body = between(&js, "E(\"v\",{},(N,C)=>{", "},b)};;return {C:a,B:A}").unwrap_or("").to_string();
+        for _ in 0..2 {
+            let (usx, ujson) = rand_upt(&mut rng, 2);
+            let d = random_data(&mut rng);
+            let job = serde_json::json!({"kind": "guardden", "text": text, "sexp": sx, "esc": ast::escaped_chars_of(&text), "impl_body": body,
+                                         "u_sexp": usx, "u": ujson, "data": d, "data_sexp": crate::behave::val_sexp_pub(&d)});
+            out.raw(&job.to_string());
+        }
+    }
+}
